@@ -49,6 +49,8 @@ def axis_points(grid, log=False, fine=False):
     pts.append(('half', inv(g[0] + 0.5 * (g[1] - g[0]))))
     if len(g) > 2:
         pts.append(('node', float(grid[1])))
+        # a quarter of a unit (of a decade for pressures) above an interior node: its whole-number part IS the node
+        pts.append(('node+', inv(g[1] + 0.25) if not log else inv(g[1] + 0.25 * min(1.0, g[2] - g[1]))))
     pts.append(('last', inv(g[-2] + 0.7 * (g[-1] - g[-2]))))
     pts.append(('max', float(grid[-1])))
     pts.append(('above', inv(g[-1] + 0.3 * span) if log else float(g[-1] * 1.5)))
